@@ -777,7 +777,21 @@ func (p *Printer) Stream(vals []*model.Value) error {
 			p.UseSIDs = true
 		}
 	}
-	for _, v := range vals {
+	for i, v := range vals {
+		// a later table (replacing or appending) re-maps the ids: the same $n may now denote other text
+		if i > 0 && p.UseSIDs && c.Flip("txt:lst-again") {
+			rest := model.SymbolTexts(vals[i:])
+			var slots []refsym.Slot
+			for j := len(rest) - 1; j >= 0; j-- {
+				if c.Intn(3) != 0 {
+					slots = append(slots, refsym.Slot{Text: rest[j], Known: true})
+				}
+			}
+			spec := refsym.LSTSpec{Symbols: slots, Append: c.Intn(3) == 0}
+			if len(slots) > 0 || !spec.Append {
+				p.AppendLST(spec)
+			}
+		}
 		p.AppendValue(v)
 	}
 	if ws := p.optWS(); ws != "" {
